@@ -16,8 +16,8 @@ notes={
 'C12-m1':"caught on 1 of 2 seeds at first, reliably after the generator extensions",
 'C12-m2':"missed at first: no source sampled one texture through two samplers; C12 now draws full-profile modules (second sampler added to genfull) and repeats each compilation up to 5 times",
 'C13-m1':"missed at first; caught since wgen emits helpers called only from loop update clauses",
-'C13-m2':"MISSED: the shape (local stored in a loop nested in an if, read afterwards) is skipped because open findings C13-3 / C13-13 in the same pass drop exactly such stores",
-'C14-m1':"MISSED: masked by open finding C14-1 (the clone already shares nested blocks and handle pointers with the caller, so the module-unchanged oracle is off; deepening the clone breaks the MSL override goldens)",
+'C13-m2':"missed at first (2 seeds), caught after the generator extensions (locals stored in loops nested in if / switch arms are observed after the construct)",
+'C14-m1':"missed at first: the module-unchanged oracle is off while C14-1 is open; caught now through its effect on a later resolution (override-derived private initialisers and helper locals are generated and executed)",
 'C15-m2':"MISSED: needs Index policy != Buffer policy; read-zero-skip-write is off while C04-3 is open, which leaves restrict/restrict",
 'C17-m1':"missed at first; IO attributes are now printed in both orders",
 'C17-m2':"missed at first: a fake binding without [[user(fake0)]] was only counted; it is now a failure (it never occurs on the unchanged tree)",
